@@ -55,7 +55,10 @@ BODIES += [["G(sqrt(%s)) | 0" % V], ["G(sin(%s)+1, k=exp(-%s)) | 0" % (V, V)], [
 BODIES_T = [["G(%s) | 0" % V, "H | 1", "K(%s*%s) | 2" % (V, V)], ["G(-%s) | [0, %s+2]" % (V, V)]]
 
 WRONG = [("int", "[0.5]"), ("int", "[1, 2.5]"), ("int", '["a"]'), ("int", "1, 0.5"), ("str", "[1]"), ("str", '["a", 2]'), ("float", '["a"]'),
-         ("bool", "[2]"), ("bool", '[True, "x"]'), ("int", "(1+2j)"), ("float", "[1+2j]")]
+         ("bool", "[2]"), ("bool", '[True, "x"]'), ("int", "(1+2j)"), ("float", "[1+2j]"),
+         # values just beside a value of the loop type, small and large (a tolerance has no place in a type check)
+         ("int", "[3.00001]"), ("int", "[7.000000001]"), ("int", "[123456.5]"), ("int", "[1, 2000000.25]"), ("int", "[0.29*100]"), ("int", "[1e15+0.5]"), ("int", "[2.9999999999999996]"),
+         ("int", "[0, -0.0000001]"), ("int", "[250000+3/4]"), ("bool", "[0.5]"), ("bool", "[1.0000001]"), ("bool", "[True, 1e-9]"), ("float", "[1+1e-12j]"), ("float", "[0.5, 2-1e-9j]"), ("int", "[4+1e-12j]")]
 
 
 def usable(t, body):
